@@ -37,6 +37,10 @@ class SqliteImpl(SqlImpl):
         compiled_val = cls.compile_col_expr(cast.val, sqa_col)
         val_type = types.without_const(cast.val.dtype())
 
+        if val_type == cast.target_type:
+            # SQLite has no date / datetime types: `CAST(x AS DATE)` yields a number
+            return compiled_val
+
         if val_type == String() and cast.target_type.is_float():
             return sqa.case(
                 (compiled_val == "inf", cls.inf()),
